@@ -2,6 +2,9 @@ package gosym
 
 import (
 	"go/types"
+	gopath "path"
+	"sort"
+	"strings"
 
 	"golang.org/x/tools/go/ssa"
 )
@@ -191,4 +194,44 @@ func (e *Exec) sameError(a, b Value) bool {
 	px, ok1 := x.V.(Ptr)
 	py, ok2 := y.V.(Ptr)
 	return ok1 && ok2 && px.L != nil && px.L == py.L
+}
+
+func init() {
+	extraIntrinsics = append(extraIntrinsics, func(w *World) {
+		// filepath.Glob on the file-system model: patterns of the form <dir>/<glob> where
+		// only the last component contains metacharacters (matched with path.Match);
+		// results sorted, as package filepath returns them.
+		w.reg("path/filepath.Glob", func(e *Exec, fn *ssa.Function, a []Value) Value {
+			errT := types.Universe.Lookup("error").Type()
+			pat := cleanPath(e.argStr(a[0], "glob pattern"))
+			dir, last := parentDir(pat), pat
+			if i := strings.LastIndex(pat, "/"); i >= 0 {
+				last = pat[i+1:]
+			}
+			if strings.ContainsAny(dir, "*?[") {
+				e.ooe("filepath.Glob with metacharacters in a directory component: %q", pat)
+			}
+			var names []string
+			for p, f := range e.fsm().files {
+				if f.isDir || parentDir(p) != dir {
+					continue
+				}
+				base := p[strings.LastIndex(p, "/")+1:]
+				if ok, err := gopath.Match(last, base); err == nil && ok {
+					names = append(names, p)
+				}
+			}
+			sort.Strings(names)
+			strT := types.Typ[types.String]
+			arr := e.newArrayLoc(strT, len(names))
+			for i, n := range names {
+				arr.Kids[i].V = e.strConst(n)
+			}
+			sl := SliceV{}
+			if len(names) > 0 {
+				sl = SliceV{Arr: arr, Off: 0, Len: len(names), Cap: len(names)}
+			}
+			return TupleV{sl, e.zero(errT)}
+		})
+	})
 }
